@@ -7,6 +7,7 @@ CONSTANTS Weights = {50, 100}
  PayCfgs <- McPlainOnly
  PaySenders <- McPlainOnly
  PayFields = {"gasPrice"}
+ GpFields = {"gasPrice"}
  BoxCfgs <- McPlainOnly
  Kinds = {}
  ReconfCfgs <- McNegCfgs
@@ -14,5 +15,5 @@ CONSTANTS Weights = {50, 100}
  Slices = {"sigs", "tamper", "payer", "junk", "box", "reconf"}
  Dev = {"Dev_MultisigCountsRepeatedSigner"}
 VIEW View
-PROPERTIES EffectOnlyIfAuthorized CanonicalAccepted RepeatNeverHelps ForeignNeverHelps RemovalNeverHelps EncodingIrrelevant TamperFalsifies PayerBinds ThresholdExact Reconf ChangeCovered BoxBinds LabelIrrelevant
+PROPERTIES EffectOnlyIfAuthorized CanonicalAccepted RepeatNeverHelps ForeignNeverHelps RemovalNeverHelps EncodingIrrelevant TamperFalsifies GasPayerFieldBinds SchemeBinds PayerBinds ThresholdExact Reconf ChangeCovered BoxBinds LabelIrrelevant
 CHECK_DEADLOCK FALSE
